@@ -773,8 +773,16 @@ fn relations(rep: &mut Report, rng: &mut Rng, store: &AnnotationStore, model: &M
         if let (Some(rows), Some(set)) = (o.rows(), o.set()) {
             rep.eval();
             if rows.len() != set.len() && rows.len() < MAXROWS {
-                // the statement promises duplicate-free answers for disjunctions only; elsewhere repeated rows are recorded, not judged
+                // the statement promises duplicate-free answers for disjunctions only. On the pinned tree the only single-constraint
+                // answers with repeated rows are TEXT results reached through data (one row per annotation that carries the data);
+                // a row that comes twice anywhere else is an item returned that was already returned
                 rep.count(&format!("repeated-rows/{}/{}", rtname(rt), c.kind()));
+                let through_data = rt == Type::TextSelection && matches!(c, CS::Key(..) | CS::KeyVal(..) | CS::Val(..));
+                if !through_data && !matches!(c, CS::Union(_)) {
+                    let mut twice: Vec<&Row> = rows.iter().filter(|r| rows.iter().filter(|x| x == r).count() > 1).collect();
+                    twice.dedup();
+                    rep.violation(format!("C08/repeated-rows/{}/{}", rtname(rt), c.kind()), ctx(sd, &QS::new(rt, vec![c.clone()]), json!({"rows": rows.len(), "distinct": set.len(), "returned_more_than_once": twice.into_iter().take(5).collect::<Vec<_>>()})));
+                }
             }
         }
     }
